@@ -22,6 +22,9 @@ pub struct CyberCycle<T, V> {
     smooth: Vec<T>,
 }
 
+/// Number of prices the smoothing stage needs: three smoothed values over four prices each.
+const MIN_HISTORY: usize = 6;
+
 impl<T, V> CyberCycle<T, V>
 where
     V: View<T>,
@@ -36,9 +39,9 @@ where
             window_len,
             alpha: T::from(2.0).expect("can convert")
                 / (T::from(window_len).expect("can convert") + T::one()),
-            vals: VecDeque::with_capacity(window_len),
-            out: VecDeque::with_capacity(window_len),
-            smooth: vec![T::zero(); window_len],
+            vals: VecDeque::with_capacity(window_len.max(MIN_HISTORY)),
+            out: VecDeque::with_capacity(window_len.max(MIN_HISTORY)),
+            smooth: vec![T::zero(); window_len.max(MIN_HISTORY)],
         }
     }
 }
@@ -54,13 +57,15 @@ where
         let Some(val) = self.view.last() else { return };
         debug_assert!(val.is_finite(), "value must be finite");
 
-        if self.vals.len() >= self.window_len {
+        // the three smoothed values of the recursion span the six most recent prices
+        let history = self.window_len.max(MIN_HISTORY);
+        if self.vals.len() >= history {
             self.vals.pop_front();
             self.out.pop_front();
         }
         self.vals.push_back(val);
 
-        if self.vals.len() < self.window_len {
+        if self.vals.len() < history {
             self.out.push_back(T::zero());
             return;
         }
@@ -73,7 +78,7 @@ where
             .take(self.vals.len())
             .skip(3)
         {
-            *v = (val
+            *v = (*self.vals.get(i).unwrap()
                 + two * *self.vals.get(i - 1).unwrap()
                 + two * *self.vals.get(i - 2).unwrap()
                 + *self.vals.get(i - 3).unwrap())
